@@ -17,6 +17,8 @@ EXTRA = None  # "peelcut": the dedicated universe of one strategy class instanti
 def strategies(mode):
     if EXTRA == "peelcut" and not mode.startswith("gram:"):
         return [Peel(mode), Peel(mode, cut=1), Peel(mode, cut=2)]
+    if EXTRA == "altnames" and not mode.startswith("gram:"):
+        return [Expand((mode + " altnames").strip())]
     if mode.startswith("gram:"):  # U-gram: the table-driven strategies of that universe
         import ugram
 
